@@ -2,6 +2,10 @@
 harness-set names defined in lib/kani_sets.py."""
 
 PROPS = {
+    'C18': {'units': ['U-SET', 'U-UTIL'], 'level': 'proof',
+            'assumptions': ['std set_read_timeout / set_write_timeout return Err for a zero Duration (std documentation)', 'Duration modelled as an opaque value with an is_zero flag'],
+            'not_covered': ['the clap- and serde-derived constructors (macro-generated code) build TimeoutSettings without the zero check: such values are rejected with InvalidInput only when the socket is configured (proved: apply_timeout never panics and reports them)',
+                            'ExtraRequestSettings builders', 'TcpSocketImpl::new connect_timeout(zero) path']},
     'C10': {'units': ['U-UTIL'], 'kani': 'C10', 'level': 'proof',
             'assumptions': ['the attempt function (_impl) is replaced by a scripted recorder in the wiring harnesses: "same result as with no faults" relies on the attempt being a function of its (unchanged) arguments and the server'],
             'bounded': ['retry wrappers: Kani harnesses for r in {0,1} and 3 scripted attempts over 5 outcome classes (the helper retry_on_timeout itself is proved by Verus for every r, unbounded)'],
